@@ -49,10 +49,10 @@ PROPS = {
     ),
     'C08': dict(
         title='provenance', proj='proj_prov', oracle='c08',
-        quick=[S_('homonym_rand', count=20000), S_('merge_pairs'), S_('merge_pairs_stars'), S_('merge_roles', count=20000), S_('merge_laws'),
+        quick=[S_('prov_rand', count=20000), S_('homonym_rand', count=20000), S_('merge_pairs'), S_('merge_pairs_stars'), S_('merge_roles', count=20000), S_('merge_laws'),
                S_('embed_small'), S_('embed_pairs'), S_('embed_rand', count=20000), S_('forwards_rand', count=30000),
                S_('mask0'), S_('maskp'), S_('maskflags', count=20000)],
-        thorough=[S_('homonym_rand', count=300000), S_('merge_pairs'), S_('merge_pairs_stars'), S_('merge_roles', count=300000), S_('merge_rand', count=200000),
+        thorough=[S_('prov_rand', count=300000), S_('homonym_rand', count=300000), S_('merge_pairs'), S_('merge_pairs_stars'), S_('merge_roles', count=300000), S_('merge_rand', count=200000),
                   S_('merge_laws'), S_('embed_small'), S_('embed_pairs', nc=64), S_('embed_rand', count=300000),
                   S_('forwards_rand', count=300000), S_('forwards_exh', nc=32), S_('mask0'), S_('maskp'), S_('maskflags', count=200000)],
         runtime_part='identity of callables (modelled as integer ids)',
@@ -63,8 +63,8 @@ PROPS = {
     ),
     'C09': dict(
         title='merge precision and laws', proj='proj_shape_errclass', oracle='c09',
-        quick=[S_('bind'), S_('apply'), S_('merge_laws'), S_('merge_pairs'), S_('merge_roles', count=20000)],
-        thorough=[S_('bind'), S_('apply'), S_('merge_laws'), S_('merge_pairs'), S_('merge_pairs_stars'), S_('merge_roles', count=300000)],
+        quick=[S_('bind'), S_('apply'), S_('merge_laws'), S_('merge_pairs'), S_('merge_roles', count=20000), S_('meta_rand', count=20000)],
+        thorough=[S_('bind'), S_('apply'), S_('merge_laws'), S_('merge_pairs'), S_('merge_pairs_stars'), S_('merge_roles', count=300000), S_('meta_rand', count=200000)],
         runtime_part=BINDER,
         level_text='Identity, idempotence, neutral-element, round-trip and fold laws are theorems about the Lean model; exactness on aligned inputs is '
                    'checked by the oracle on all aligned pairs of the universe and sampled aligned tuples while its proof is in progress.',
@@ -97,8 +97,8 @@ PROPS = {
     ),
     'C04': dict(
         title='declared forwarding', proj='proj_full', oracle='c04',
-        quick=[S_('bind'), S_('forwards_exh', nc=32), S_('forwards_rand', count=30000)],
-        thorough=[S_('bind'), S_('forwards_exh', nc=32), S_('forwards_rand', count=400000)],
+        quick=[S_('bind'), S_('forwards_exh', nc=32), S_('forwards_rand', count=30000), S_('declfwd', count=800)],
+        thorough=[S_('bind'), S_('forwards_exh', nc=32), S_('forwards_rand', count=400000), S_('declfwd', count=20000)],
         runtime_part='the forger protocol (set_signature_forger, forwards_to_method attribute walking, forwards_to_super, emulate) and execution of real wrappers',
         level_text='forwards = embed . mask is definitional in the Lean model and its soundness follows from the embed and mask theorems; the '
                    'correspondence compares real forwards with the model AND with real embed(outer, mask(inner)) in parameters and provenance; '
